@@ -264,6 +264,12 @@ def correspondence(ctx: core.Ctx) -> None:
     first = [f'sys_platform {op} "{v}"' for v in shared for op in ("==", "!=")] + [f'os_name == "{v}"' for v in shared]
     pairs = [f'extra {o1} "{x}" {j} extra {o2} "{y}"' for x in shared for y in shared + ["b"] for o1 in ("==", "!=")
              for o2 in ("==", "!=") for j in ("and", "or") if x != y]
+    # two disjunctions (and, dually, two conjunctions) over the SAME two extras with every operator combination: distribution
+    # yields conjunctions over equal values with different operators, which must stay distinct
+    ops2 = [(o1, o2, o3, o4) for o1 in ("==", "!=") for o2 in ("==", "!=") for o3 in ("==", "!=") for o4 in ("==", "!=")]
+    for x, y in (("a", "b"), ("linux", "a")):
+        pairs += [f'(extra {o1} "{x}" or extra {o2} "{y}") and (extra {o3} "{x}" or extra {o4} "{y}")' for o1, o2, o3, o4 in ops2]
+        pairs += [f'(extra {o1} "{x}" and extra {o2} "{y}") or (extra {o3} "{y}" and extra {o4} "{x}")' for o1, o2, o3, o4 in ops2]
     ex_envs = G.envs(pys=["3.9.1"])
     check_texts(ctx, first + pairs + [f"{a} and ({b})" for a, b in zip(first * 20, pairs)][: ctx.budget(40, 400)],
                 "shared-literal-extras", envs=ex_envs, history=first)
